@@ -195,7 +195,15 @@ pub fn lifecycle(trace: &[Value]) -> Vec<Value> {
                     }
                 }
                 "EpEvent" if e["drained"] == true => {
-                    out.push(json!({"ev":"Drained","t":e["t"],"dup":e["dup"],
+                    // with its last connection gone an endpoint has nothing left on file: no connection
+                    // IDs, initial IDs, reset tokens, remotes
+                    let ep = &e["ep_post"];
+                    let left = if ep["conns"] == 0 {
+                        ["cids", "icids", "rtok", "inrem", "outrem"].iter().map(|k| ep[*k].as_i64().unwrap_or(0)).sum::<i64>()
+                    } else {
+                        0
+                    };
+                    out.push(json!({"ev":"Drained","t":e["t"],"dup":e["dup"],"left":left,
                         "epc_pre":e["ep_pre"]["conns"],"epc_post":e["ep_post"]["conns"]}));
                 }
                 "Tx" => {
